@@ -274,7 +274,21 @@ def run(F, chk):
             chk.violation("R16.3", "C16/R16.3:%s:%s" % (fn["name"], sidx), where(fn, n),
                           "%s (on the load path) subscripts a header table with `%s`, a value read from another header table, "
                           "without an upper-bound test: a file cut between the two tables leaves the second one empty" % (fn["name"], sidx))
-    chk.floor(R3, 4)
+    # the other half of "whatever was loaded can be saved": a reference index cut in the middle of its four bytes is neither empty
+    # nor a block number, so header-table subscripts by a reference index on the save path need their upper-bound test too
+    save_reach = set()
+    for sv in [f for f in F.fns.values() if f.get("cls") == "nifly::NifFile" and f["short"] == "Save" and f.get("body")]:
+        save_reach |= F.reachable([sv["id"]])
+    for fn, n, sidx, kind, ok, note in c15.header_range_guards(F):
+        if note or kind != "ref" or fn["id"] not in save_reach:
+            continue
+        chk.instance(R3, ok=ok, sample={"fn": fn["name"], "index": sidx, "path": "save"})
+        if not ok:
+            chk.violation("R16.3", "C16/R16.3:%s:%s" % (fn["name"], sidx), where(fn, n),
+                          "%s (on the save path) subscripts a table with the reference index `%s` without an upper-bound test: a "
+                          "reference cut in the middle of its bytes by a truncated file is neither empty nor a valid block number, so "
+                          "saving what was loaded reads past the table" % (fn["name"], sidx))
+    chk.floor(R3, 5)
 
 
 def _pos_guard(st, d):
